@@ -1366,6 +1366,32 @@ def rule_builtin_names(chk, prog, tier):
                 raise AnalysisBroken('%s: %s' % (key, [(x.outcome, x.detail) for x in runs][:2]))
             if follow == 'TLPAREN': r.instance(runs[0].outcome == 'return' and runs[0].value, key, 'expr.c:primaryexpr', 'a call of the builtin: the identifier node is handed to postfixexpr; got %s %s' % (runs[0].outcome, runs[0].detail or ''))
             else: r.instance(runs[0].outcome == 'terminal:error', key, 'expr.c:primaryexpr', 'must be diagnosed; cproc yields an expression node without a type (%s)' % runs[0].outcome)
+    # an identifier that denotes a typedef name is not a primary expression (6.5.1p2: an object, a function or an enumeration constant): `sizeof T` without parentheses, `T + 1`, `return T;`
+    for dk, ok in (('DECLTYPE', False), ('DECLOBJECT', True), ('DECLFUNC', True), ('DECLCONST', True)):
+        for follow in ('TSEMICOLON', 'TADD', 'TRPAREN'):
+            def runner(it):
+                w = World(prog, it=it, target='x86_64-sysv')
+                d = Obj('decl', 'heap'); nm = 'name'
+                ft = it.call('mktype', [ev(prog, 'TYPEFUNC'), 0]); ft.obj.f.update({('base',): w.t('int'), ('qual',): 0, ('size',): 0, ('align',): 0, ('incomplete',): 0, ('u', 'func', 'params'): None, ('u', 'func', 'nparam'): 0, ('u', 'func', 'isvararg'): 0})
+                d.f.update({('name',): Ptr(it.mkstr(list(nm.encode()), nm), (0,)), ('kind',): ev(prog, dk), ('type',): ft if dk == 'DECLFUNC' else w.t('int'), ('qual',): 0, ('u', 'enumconst'): 3, ('value',): None})
+                tokobj = it.gobj('tok'); st = {'i': 0}
+                toks = ['TIDENT', follow, 'TSEMICOLON']
+                def load():
+                    tokobj.f[('kind',)] = ev(prog, toks[min(st['i'], 2)]); tokobj.f[('lit',)] = Ptr(it.mkstr(list(nm.encode()), nm), (0,)) if st['i'] == 0 else None
+                    tokobj.f[('loc', 'file')] = None; tokobj.f[('loc', 'line')] = 1; tokobj.f[('loc', 'col')] = 1
+                def nxt(i2, a, e): st['i'] += 1; load(); return None
+                it.models.update({'next': nxt, 'scopegetdecl': lambda i2, a, e: Ptr(d, ()), 'xmalloc': lambda i2, a, e: Ptr(Obj('heap@%s' % e.get('line'), 'heap'), ()),
+                                  'error': lambda i2, a, e: (_ for _ in ()).throw(Terminal('error', cmodel.fmt_of(i2, a, 1))),
+                                  'fatal': lambda i2, a, e: (_ for _ in ()).throw(Terminal('fatal', cmodel.fmt_of(i2, a, 0)))})
+                load()
+                it.call(fn, [Ptr(Obj('scope', 'heap'), ())])
+                return st['i']
+            runs = explore(prog, runner, {}, max_runs=4, on_unsupported='keep')
+            key = 'identifier-kind:%s followed by %s' % ({'DECLTYPE': 'typedef name', 'DECLOBJECT': 'object', 'DECLFUNC': 'function', 'DECLCONST': 'enumeration constant'}[dk], follow[1:].lower())
+            if len(runs) != 1 or runs[0].outcome == 'unsupported':
+                raise AnalysisBroken('%s: %s' % (key, [(x.outcome, x.detail) for x in runs][:2]))
+            if ok: r.instance(runs[0].outcome == 'return' and runs[0].value == 1, key, 'expr.c:primaryexpr', 'a primary expression of one token; got %s %s' % (runs[0].outcome, runs[0].value if runs[0].outcome == 'return' else runs[0].detail))
+            else: r.instance(runs[0].outcome == 'terminal:error', key, 'expr.c:primaryexpr', 'a typedef name is not an expression: must be diagnosed; cproc builds an identifier expression for it')
     r.exhaustive = True
 
 
